@@ -1468,9 +1468,22 @@ class Interp(object):
     if isinstance(obj, _Super):
       v, owner = obj.self_val.cls.lookup(name, after=obj.cls) if isinstance(obj.self_val, Obj) else obj.self_val.lookup(name, after=obj.cls)
       if v is None:
+        if name == "__init__" and isinstance(obj.self_val, Obj):
+          # object.__init__, or the constructor of an unmodelled external (Keras) base class:
+          # assumed to store its keyword arguments as same-named attributes (K1)
+          target = obj.self_val
+
+          def ext_init(ip, *a, **k):
+            for kk, vv in k.items():
+              if kk not in target.attrs:
+                ip.setattr(target, kk, vv)
+            return None
+          return Builtin("object.__init__", ext_init)
         if name in ("__init__", "__init_subclass__", "__setattr__"):
-          # object.__init__ (or an unmodelled external base): no-op
           return Builtin("object." + name, lambda ip, *a, **k: None)
+        if self.term_mode:
+          base = "super(%s).%s" % (obj.cls.name, name)
+          return Builtin(base, lambda ip, *a, **k: Term(base, a, k))
         raise PyRaise("AttributeError", (name,), node)
       if isinstance(obj.self_val, Obj):
         return self.bind_attr(v, obj.self_val, obj.self_val.cls)
